@@ -10,7 +10,8 @@ VARIABLE hist
 Rec == [op |-> last.op, a |-> last.a, b |-> last.b, kd |-> last.kd, refs |-> h.refs, walked |-> walked,
         cyc |-> everCyc, ns |-> NS]
 SimInit == Init /\ hist = << Rec >>
-SimNext == Next /\ hist' = Append(hist, Rec')
+\* (an uncaught exception ends a run: such steps are left to the transition cover, generation goes on)
+SimNext == Next /\ ~fault' /\ hist' = Append(hist, Rec')
 SimSpec == SimInit /\ [][SimNext]_<<vars, hist>>
 
 Emit == Len(hist) # Depth \/ PrintT(<<"@@HIST@@", ToJson(hist)>>)
